@@ -731,7 +731,7 @@ func (m *Monitor) afterCall(i int, op *Op, f *Fn, rec *OpRec) {
 				m.violate("C13", "C13.cycle-misclassified", "Decorate rejection reports IsCycleDetected")
 			}
 		}
-		if cl == VOk {
+		if cl == VOk && op.Invalid == "" {
 			if op.Kind == OpProvide {
 				m.regs = append(m.regs, pc.reg)
 				m.role[f.ID] = pc.reg
